@@ -33,8 +33,10 @@ def pygsti_label_from_statement(gate):
             else:
                 args.append(param)
         else:
-            # quantum argument: a qubit
-            args.append(param.alias_index)
+            # quantum argument: a qubit.  Follow map aliases back to the
+            # fundamental register.
+            _reg, qubit_index = param.resolve_qubit()
+            args.append(qubit_index)
     return Label(args)
 
 
